@@ -73,6 +73,8 @@ type opGuard struct {
 	ctors        []string
 	noCallBranch token.Pos // a branch assigning the right operand without a parse call
 	fold         string    // explicit-stack form: how the pending operands are folded ("right" | "left")
+	lo, hi       token.Pos // extent of the guarded statements
+	suffix       bool      // second token of a composite operator (`..` `<`): consumed right after another operator, before any operand
 }
 
 type c04Level struct {
@@ -858,6 +860,36 @@ func c04Run(r *Run) {
 			g := &opGuard{fn: fd, src: fd, toks: toks, signed: signed, kind: kind, pos: pos}
 			g.prefix = leftPos == token.NoPos || pos < leftPos
 			bodyInfo(g, body)
+			if len(body) > 0 {
+				g.lo, g.hi = body[0].Pos(), body[len(body)-1].End()
+			}
+			// `if cur == DOUBLE_DOT { next(); if cur == LT { next(); … } right := parse() }`: the inner token is
+			// consumed directly after the outer operator, before any operand, and has no operand of its own —
+			// it is the tail of a two-token operator, not an infix use of `<`
+			if kind == "if" && g.hasNext && len(g.rights) == 0 {
+				for _, outer := range lv.guards {
+					if outer.lo == token.NoPos || pos < outer.lo || pos > outer.hi || !outer.hasNext || len(outer.rights) == 0 {
+						continue
+					}
+					operandBefore := false
+					for _, rp := range outer.rightPos {
+						if rp < pos {
+							operandBefore = true
+						}
+					}
+					sameTok := false
+					for _, a := range outer.toks {
+						for _, b := range toks {
+							if a == b {
+								sameTok = true
+							}
+						}
+					}
+					if !operandBefore && !sameTok {
+						g.suffix = true
+					}
+				}
+			}
 			// a guard in front of the level's operand parse that builds a *binary* node has a left operand
 			// of its own (a literal built on the spot): the operator is consumed as an infix operator here
 			if g.prefix && g.hasNext && len(g.rights) > 0 {
@@ -1160,7 +1192,7 @@ func c04Run(r *Run) {
 			levels[f] = lv
 		}
 		for _, g := range lv.guards {
-			if !g.hasNext {
+			if !g.hasNext || g.suffix {
 				continue
 			}
 			if g.prefix {
